@@ -370,7 +370,11 @@ fn main() {
         Some("replay") => {
             set_limits();
             unsafe { std::env::set_var("VERIF_LOUD", "1") };
-            vcommon::quiet_panics();
+            // H14_BACKTRACE=1 RUST_BACKTRACE=1: keep the default panic hook (full backtrace; the
+            // printed `file:line` of the PANIC lines is then empty)
+            if std::env::var("H14_BACKTRACE").is_err() {
+                vcommon::quiet_panics();
+            }
             let f: Value = serde_json::from_str(&std::fs::read_to_string(&args[2]).expect("file")).expect("json");
             let code = std::thread::Builder::new()
                 .stack_size(256 << 20)
